@@ -452,3 +452,67 @@ theorem append_one_effect {h h' : Heap} {p y : Nat} (hg : Good2 h) (hp : (h.kind
       rw [this, List.insertIdx_length_self]
 
 end BS.Heap
+
+namespace BS.Heap
+
+theorem good_not_self_kid {h : Heap} (hg : Good h) (n : Nat) : n ∉ h.kids n := by
+  obtain ⟨w, hwf⟩ := hg
+  intro hm
+  have := tiles_mem w.pos w.size (h.kids n) _ _ (hwf.tiles n) n hm
+  omega
+
+/-- **wrap(w)**: `w` takes `x`'s place among the children of `x`'s parent, and `x` becomes the last child of `w`
+    (after whatever `w` already contained); nothing else moves (other lists only lose `w`) -/
+theorem wrap_effect {h h' : Heap} {x w p : Nat} (hg : Good2 h) (hp : h.parent x = some p)
+    (hw : (h.kind w).isTag = true) (hws : h.kind w ≠ .soup) (hxw : w ≠ x) (hwp : w ∉ h.kids p)
+    (hr : wrap h x w = .ok h') :
+    Good2 h' ∧ h'.kids p = (h.kids p).map (fun k => if k = x then w else k) ∧
+    h'.kids w = h.kids w ++ [x] ∧ h'.parent x = some w ∧ h'.parent w = some p ∧
+    (∀ n, n ≠ p → n ≠ w → h'.kids n = (h.kids n).erase w) := by
+  have hg0 := hg
+  obtain ⟨hgood, hstr⟩ := hg
+  obtain ⟨wt, hwf⟩ := hgood
+  have hxs : h.kind x ≠ .soup := by
+    intro hk; have := hwf.soup_root x hk; rw [hp] at this; cases this
+  unfold wrap at hr
+  cases hrw : replaceWith h x [.node w] with
+  | error e => simp only [hrw] at hr; cases hr
+  | ok h1 =>
+    simp only [hrw] at hr
+    obtain ⟨hg1, hkp1, hko1, hpx1, hpw1⟩ := replaceWith_one_effect hg0 hp hws hxw hwp hrw
+    obtain ⟨_, hks1⟩ := replaceWith_good2 extract_spec linkChild_spec hg0 hrw
+    have hwne : w ≠ p := by
+      intro he
+      obtain ⟨wt1, hwf1⟩ := hg1.1
+      have hm := hwf1.parent_kid w p hpw1
+      rw [← he] at hm
+      exact good_not_self_kid hg1.1 w hm
+    have hxnw : x ∉ h.kids w := by
+      intro hm; have := hwf.kid_parent w x hm; rw [hp] at this; cases this; exact hwne rfl
+    have hwnw : w ∉ h.kids w := good_not_self_kid ⟨wt, hwf⟩ w
+    have hkw1 : h1.kids w = h.kids w := by
+      rw [hko1 w hwne, List.erase_of_not_mem hxnw, List.erase_of_not_mem hwnw]
+    have hw1 : (h1.kind w).isTag = true := by rw [hks1.1 w]; exact hw
+    have hx1 : h1.kind x ≠ .soup := fun hk => hxs ((hks1.2 x).mp hk)
+    obtain ⟨hg2, hkw2, hko2, hpx2⟩ := append_one_effect hg1 hw1 hx1 hr
+    have hxnp1 : x ∉ h1.kids p := by
+      obtain ⟨wt1, hwf1⟩ := hg1.1
+      intro hm; have := hwf1.kid_parent p x hm; rw [hpx1] at this; cases this
+    refine ⟨hg2, ?_, ?_, hpx2, ?_, ?_⟩
+    · rw [hko2 p (Ne.symm hwne), List.erase_of_not_mem hxnp1, hkp1]
+    · rw [hkw2, hkw1, List.erase_of_not_mem hxnw]
+    · obtain ⟨wt2, hwf2⟩ := hg2.1
+      have : w ∈ h'.kids p := by
+        rw [hko2 p (Ne.symm hwne), List.erase_of_not_mem hxnp1, hkp1]
+        have hm := hwf.parent_kid x p hp
+        exact List.mem_map.mpr ⟨x, hm, by simp⟩
+      exact hwf2.kid_parent p w this
+    · intro n hnp hnw
+      rw [hko2 n hnw, hko1 n hnp]
+      have hxn : x ∉ h.kids n := by
+        intro hm; have := hwf.kid_parent n x hm; rw [hp] at this; cases this; exact hnp rfl
+      rw [List.erase_of_not_mem hxn]
+      have : x ∉ (h.kids n).erase w := fun hm => hxn (List.mem_of_mem_erase hm)
+      rw [List.erase_of_not_mem this]
+
+end BS.Heap
